@@ -37,6 +37,7 @@ fn main() {
         Some("qs-lookup") => service::qs_lookup(),
         Some("xml-text") => service::xml_text(),
         Some("meta-headers") => service::meta_headers(),
+        Some("meta-out") => service::meta_out(),
         Some("keep-alive") => service::keep_alive(),
         Some("xml-payload") => service::xml_payload(),
         Some("host-config") => service::host_config(),
